@@ -88,9 +88,6 @@ Fixpoint set_nth {A} (l : list A) (n : nat) (x : A) : list A :=
   | a :: r, S m => a :: set_nth r m x
   end.
 
-Definition setd (st : sst) (t : nat) (d : dyn) : sst :=
-  {| dy := set_nth (dy st) t d; lg := lg st; calc := calc st; inprog := inprog st |}.
-
 Definition memb (t : nat) (l : list nat) : bool := existsb (Nat.eqb t) l.
 Definition remove_nat (t : nat) (l : list nat) : list nat := filter (fun x => negb (Nat.eqb x t)) l.
 
@@ -151,18 +148,23 @@ Definition fwd_shift (cfg : config) (l : ledger) (r t : nat) (s0 left : Z) : res
     do '(l', d) <- fill (cap cfg r) (balance cfg) r t 1 (h_fill cfg) l (day_of s0 - 1) left;
     Ok (l', DAY * d + frac (used (balance cfg) l' r d t) (cap cfg r d)).
 
-Definition fwd_compute (cfg : config) (w : list itask) (st : sst) (t : nat) (bound : Z) : res sst :=
+Definition getdl (ds : list dyn) (t : nat) : dyn := nth t ds no_dyn.
+
+(* the calculation of one task once everything it waits for (and its children) is calculated:
+   new dates/amounts of the task and the ledger with the task's reservations *)
+Definition fwd_compute (cfg : config) (w : list itask) (ds : list dyn) (l : ledger) (t : nat) (bound : Z)
+  : res (list dyn * ledger) :=
   let k := gett w t in
-  let dn := getd st t in
+  let dn := getdl ds t in
   if k_milestone k then
-    Ok (setd st t {| d_start := Some bound; d_end := Some bound; d_est := Some 0; d_spent := Some 0 |})
+    Ok (set_nth ds t {| d_start := Some bound; d_end := Some bound; d_est := Some 0; d_spent := Some 0 |}, l)
   else
-    let kids := map (getd st) (k_children k) in
+    let kids := map (getdl ds) (k_children k) in
     do start <- match d_start dn with
                 | Some s => Ok s
                 | None =>
                     if is_leaf k then
-                      do s <- fwd_nearest cfg (lg st) (k_res k) t
+                      do s <- fwd_nearest cfg l (k_res k) t
                                 (Z.max (Z.max bound (now cfg)) (odflt (k_minstart k) 0));
                       Ok (match d_end dn with Some e => Z.min s e | None => s end)
                     else
@@ -180,48 +182,61 @@ Definition fwd_compute (cfg : config) (w : list itask) (st : sst) (t : nat) (bou
                 | None => if is_leaf k then Ok 0 else sum_opts (map d_spent kids)
                 end;
     do '(l', en) <- match d_end dn with
-                    | Some e => Ok (lg st, e)
+                    | Some e => Ok (l, e)
                     | None =>
                         if is_leaf k then
-                          do '(l', e) <- fwd_shift cfg (lg st) (k_res k) t
+                          do '(l', e) <- fwd_shift cfg l (k_res k) t
                                            (Z.max (Z.max start (now cfg)) (pbound cfg))
                                            (Z.max (est - spent) 0);
                           Ok (l', Z.max e start)
                         else
                           match somes (map d_end kids) with
                           | [] => Crash ValueError
-                          | x :: xs => Ok (lg st, fold_left Z.max xs x)
+                          | x :: xs => Ok (l, fold_left Z.max xs x)
                           end
                     end;
-    Ok {| dy := set_nth (dy st) t {| d_start := Some start; d_end := Some en; d_est := Some est; d_spent := Some spent |};
-          lg := l'; calc := calc st; inprog := inprog st |}.
+    Ok (set_nth ds t {| d_start := Some start; d_end := Some en; d_est := Some est; d_spent := Some spent |}, l').
 
-Definition bound_max (st : sst) (pre : list nat) (b : Z) : Z :=
-  fold_left Z.max (somes (map (fun p => d_end (getd st p)) pre)) b.
-Definition bound_min (st : sst) (pre : list nat) (b : Z) : Z :=
-  fold_left Z.min (somes (map (fun p => d_start (getd st p)) pre)) b.
+Definition bound_max (ds : list dyn) (pre : list nat) (b : Z) : Z :=
+  fold_left Z.max (somes (map (fun p => d_end (getdl ds p)) pre)) b.
+Definition bound_min (ds : list dyn) (pre : list nat) (b : Z) : Z :=
+  fold_left Z.min (somes (map (fun p => d_start (getdl ds p)) pre)) b.
 
 Definition enter (st : sst) (t : nat) : sst :=
   {| dy := dy st; lg := lg st; calc := calc st; inprog := t :: inprog st |}.
-Definition leave (st : sst) (t : nat) : sst :=
-  {| dy := dy st; lg := lg st; calc := t :: calc st; inprog := remove_nat t (inprog st) |}.
+Definition leave (st : sst) (t : nat) (r : list dyn * ledger) : sst :=
+  {| dy := fst r; lg := snd r; calc := t :: calc st; inprog := remove_nat t (inprog st) |}.
 
-Fixpoint fwd_pass (fuel : nat) (cfg : config) (w : list itask) (st : sst) (t : nat) : res sst :=
+(* The recursive pass, shared by both schedulers: [deps t] is what the task waits for, [kids t] its
+   children in the order they are visited, [bnd] the bound derived from the calculated tasks,
+   [compute] the calculation of one task.  A task that is reached again while it is being
+   calculated is the RuntimeError of a dependency cycle closing through the hierarchy. *)
+Section Pass.
+Variable w : list itask.
+Variable deps : nat -> list nat.
+Variable kids : nat -> list nat.
+Variable bnd : list dyn -> list nat -> Z.
+Variable compute : list dyn -> ledger -> nat -> Z -> res (list dyn * ledger).
+
+Fixpoint gpass (fuel : nat) (st : sst) (t : nat) : res sst :=
   match fuel with
   | O => Crash RecursionError
   | S f =>
-      let k := gett w t in
-      if k_ext k then Ok st
+      if k_ext (gett w t) then Ok st
       else if memb t (calc st) then Ok st
       else if memb t (inprog st) then Err
       else
-        let pre := prereqs w t in
-        do st2 <- fold_res (fwd_pass f cfg w) pre (enter st t);
-        let bound := bound_max st2 pre (pbound cfg) in
-        do st3 <- fold_res (fwd_pass f cfg w) (k_children k) st2;
-        do st4 <- fwd_compute cfg w st3 t bound;
-        Ok (leave st4 t)
+        do st2 <- fold_res (gpass f) (deps t) (enter st t);
+        let bound := bnd (dy st2) (deps t) in
+        do st3 <- fold_res (gpass f) (kids t) st2;
+        do r <- compute (dy st3) (lg st3) t bound;
+        Ok (leave st3 t r)
   end.
+End Pass.
+
+Definition fwd_pass (fuel : nat) (cfg : config) (w : list itask) : sst -> nat -> res sst :=
+  gpass w (prereqs w) (fun t => k_children (gett w t))
+        (fun ds pre => bound_max ds pre (pbound cfg)) (fwd_compute cfg w) fuel.
 
 (* clone + __prepare_tasks: summary tasks lose their dates and amounts *)
 Definition init_dyn (k : itask) : dyn :=
@@ -268,17 +283,18 @@ Definition bwd_shift (cfg : config) (l : ledger) (r t : nat) (e0 left : Z) : res
     do '(l', d) <- fill (cap cfg r) (balance cfg) r t (-1) (h_fill cfg) l (day_of e0) left;
     Ok (l', DAY * (d + 1) - frac (used (balance cfg) l' r d t) (cap cfg r d)).
 
-Definition bwd_compute (cfg : config) (w : list itask) (st : sst) (t : nat) (bound : Z) : res sst :=
+Definition bwd_compute (cfg : config) (w : list itask) (ds : list dyn) (l : ledger) (t : nat) (bound : Z)
+  : res (list dyn * ledger) :=
   let k := gett w t in
-  let dn := getd st t in
+  let dn := getdl ds t in
   if k_milestone k then
-    Ok (setd st t {| d_start := Some bound; d_end := Some bound; d_est := Some 0; d_spent := Some 0 |})
+    Ok (set_nth ds t {| d_start := Some bound; d_end := Some bound; d_est := Some 0; d_spent := Some 0 |}, l)
   else
-    let kids := map (getd st) (k_children k) in
+    let kids := map (getdl ds) (k_children k) in
     do en <- match d_end dn with
              | Some e => Ok e
              | None =>
-                 if is_leaf k then bwd_nearest cfg (lg st) (k_res k) t bound
+                 if is_leaf k then bwd_nearest cfg l (k_res k) t bound
                  else match somes (map d_end kids) with
                       | [] => Ok bound
                       | x :: xs => Ok (fold_left Z.max xs x)
@@ -294,32 +310,18 @@ Definition bwd_compute (cfg : config) (w : list itask) (st : sst) (t : nat) (bou
                 end;
     do '(l', start) <-
          (if is_leaf k then
-            do '(l', s) <- bwd_shift cfg (lg st) (k_res k) t (Z.min en bound) (Z.max (est - spent) 0);
+            do '(l', s) <- bwd_shift cfg l (k_res k) t (Z.min en bound) (Z.max (est - spent) 0);
             Ok (l', match d_start dn with Some s0 => Z.min s0 s | None => s end)
           else
             match somes (map d_start kids) with
             | [] => Crash ValueError
-            | x :: xs => Ok (lg st, fold_left Z.min xs x)
+            | x :: xs => Ok (l, fold_left Z.min xs x)
             end);
-    Ok {| dy := set_nth (dy st) t {| d_start := Some start; d_end := Some en; d_est := Some est; d_spent := Some spent |};
-          lg := l'; calc := calc st; inprog := inprog st |}.
+    Ok (set_nth ds t {| d_start := Some start; d_end := Some en; d_est := Some est; d_spent := Some spent |}, l').
 
-Fixpoint bwd_pass (fuel : nat) (cfg : config) (w : list itask) (st : sst) (t : nat) : res sst :=
-  match fuel with
-  | O => Crash RecursionError
-  | S f =>
-      let k := gett w t in
-      if k_ext k then Ok st
-      else if memb t (calc st) then Ok st
-      else if memb t (inprog st) then Err
-      else
-        let dep := dependants w t in
-        do st2 <- fold_res (bwd_pass f cfg w) dep (enter st t);
-        let bound := bound_min st2 dep (pbound cfg) in
-        do st3 <- fold_res (bwd_pass f cfg w) (rev (k_children k)) st2;
-        do st4 <- bwd_compute cfg w st3 t bound;
-        Ok (leave st4 t)
-  end.
+Definition bwd_pass (fuel : nat) (cfg : config) (w : list itask) : sst -> nat -> res sst :=
+  gpass w (dependants w) (fun t => rev (k_children (gett w t)))
+        (fun ds dep => bound_min ds dep (pbound cfg)) (bwd_compute cfg w) fuel.
 
 Definition backward (cfg : config) (w : list itask) : res sst :=
   if negb (isolated_ok w) then Err
